@@ -500,7 +500,12 @@ class Frame:
         parts = []
         for v in e.values:
             if isinstance(v, ast.FormattedValue):
-                parts.append(("value", self.expr(v.value)))
+                val = self.expr(v.value)
+                spec = v.format_spec
+                if isinstance(val, Aff) and type(val) is not Aff and v.conversion == -1 and isinstance(spec, ast.JoinedStr) \
+                        and len(spec.values) == 1 and isinstance(spec.values[0], ast.Constant) and str(spec.values[0].value).endswith("d"):
+                    val = Aff(val.c, val.t)  # the "d" presentation type prints the decimal number whatever the object's own __str__
+                parts.append(("value", val))
             elif isinstance(v, ast.Constant):
                 parts.append(("text", v.value))
         if getattr(self.ev, "keep_fstrings", False):
@@ -1103,6 +1108,8 @@ def _b_int(ev, args, kw, node):
             return B.divmod_const(x, m)[0]
         q, r = B.divmod_const(-Aff.of(x), m)
         return -q
+    if isinstance(v, Aff) and type(v) is not Aff:
+        return Aff(v.c, v.t)  # an int-like object (a subclass instance, a bool): int() gives the plain number
     if isinstance(v, (int, Aff)):
         return v
     raise AnalysisError("engine B: int(%r)" % (v,))
